@@ -48,6 +48,14 @@ fn rng_of(x: &Sx) -> Random {
 /// prints the stack height, the evaluated flags and the solutions of the top population.
 fn run<P: Problem<Objective = SingleObjective>>(problem: &P, comp: Result<Box<dyn Component<P>>, ()>, rng: Random,
                    pops: Vec<Vec<P::Encoding>>, show: impl Fn(&P::Encoding) -> String) -> String {
+    run_adapted(problem, comp, rng, pops, show, |_| {})
+}
+
+/// As `run`, with `adapt` applied to the state between `init` and `execute` (run-time adaptation of
+/// the parameters the component stored in the state).
+fn run_adapted<P: Problem<Objective = SingleObjective>>(problem: &P, comp: Result<Box<dyn Component<P>>, ()>, rng: Random,
+                   pops: Vec<Vec<P::Encoding>>, show: impl Fn(&P::Encoding) -> String,
+                   adapt: impl FnOnce(&mut State<P>)) -> String {
     let Ok(comp) = comp else { return "(e ctor)".into() };
     let r = catch(|| {
         let mut state: State<P> = State::new();
@@ -57,6 +65,7 @@ fn run<P: Problem<Objective = SingleObjective>>(problem: &P, comp: Result<Box<dy
             state.populations_mut().push(p.into_iter().map(|s| Individual::new(s, SingleObjective::try_from(1.0).unwrap())).collect());
         }
         if comp.init(problem, &mut state).is_err() { return "(e init)".to_string(); }
+        adapt(&mut state);
         match comp.execute(problem, &mut state) {
             Err(_) => "(e exec)".to_string(),
             Ok(()) => {
@@ -68,6 +77,31 @@ fn run<P: Problem<Objective = SingleObjective>>(problem: &P, comp: Result<Box<dy
         }
     });
     r.unwrap_or_else(|| "panic".into())
+}
+
+/// `-` (keep) or a float.
+fn optf(x: &Sx) -> Option<f64> { if x.atom() == Some("-") { None } else { Some(x.float().unwrap()) } }
+
+/// Overwrites the strength / rate states of component type `T` the way `mode` says.
+fn adapt_states<P: Problem, T: mahf::component::AnyComponent + 'static>(state: &mut State<P>, mode: &str, s: Option<f64>, r: Option<f64>) {
+    if let Some(v) = s {
+        if mode == "insert" { state.insert(MutationStrength::<T>::new(v)); } else { state.set_value::<MutationStrength<T>>(v); }
+    }
+    if let Some(v) = r {
+        if mode == "insert" { state.insert(MutationRate::<T>::new(v)); } else { state.set_value::<MutationRate<T>>(v); }
+    }
+}
+
+/// A user-side `Mutation` run through the default driver `mutation()`: reverses (kind 0), rotates
+/// (kind 1) or keeps (kind 2) a solution, and fails on a solution containing the gene `fail`.
+#[derive(Clone, serde::Serialize)]
+pub struct TagMutation { kind: u64, fail: usize }
+impl Mutation<Tsp> for TagMutation {
+    fn mutate(&self, solution: &mut Vec<usize>, _problem: &Tsp, _state: &mut State<Tsp>) -> mahf::ExecResult<()> {
+        if solution.contains(&self.fail) { return Err(eyre::eyre!("refused")); }
+        match self.kind { 0 => solution.reverse(), 1 => { if !solution.is_empty() { solution.rotate_left(1) } } _ => {} }
+        Ok(())
+    }
 }
 
 /// Initialises ALL components on one state (each inserts its own rate / strength states), then executes
@@ -105,28 +139,106 @@ fn triple(x: &Sx) -> (f64, f64, f64) {
     (v[1].float().unwrap(), v[2].float().unwrap(), v[3].float().unwrap())
 }
 
-pub fn run_component(name: &str, a: &[Sx]) -> String {
+/// What a case may add to the plain `new(..)` + `init` + `execute`: the public constructor to build the
+/// component with, and an overwrite of the parameter states between `init` and `execute`.
+#[derive(Clone, Copy, Default)]
+pub struct Extra<'a> { ctor: Option<&'a str>, adapt: Option<(&'a str, Option<f64>, Option<f64>)> }
+
+pub fn run_component(name: &str, a: &[Sx]) -> String { run_component_x(name, a, Extra::default()) }
+
+pub fn run_component_x(name: &str, a: &[Sx], x: Extra) -> String {
     let dim_of = |n: usize| n.max(1);
+    let ctor = x.ctor.unwrap_or("new");
+    let (mode, ads, adr) = x.adapt.unwrap_or(("set", None, None));
+    let bad_ctor = || -> ! { panic!("constructor {ctor} does not exist for {name}") };
     match name {
+        // (via CTOR inner): the inner case built through the named public constructor
+        "via" => {
+            let (inner, ia) = a[1].head().unwrap();
+            run_component_x(inner, ia, Extra { ctor: Some(a[0].atom().unwrap()), ..x })
+        }
+        // (adapt MODE (set S R) inner): S / R overwrite MutationStrength / MutationRate after init
+        "adapt" => {
+            let (inner, ia) = a[2].head().unwrap();
+            let set = a[1].items().unwrap();
+            run_component_x(inner, ia, Extra { adapt: Some((a[0].atom().unwrap(), optf(&set[1]), optf(&set[2]))), ..x })
+        }
+        // (mutdefault KIND FAIL pops..): `mutation()` with a user-side `Mutation`; populations bottom first
+        "mutdefault" => {
+            let m = TagMutation { kind: a[0].nat().unwrap(), fail: a[1].nat().unwrap() as usize };
+            let pops: Vec<Vec<Vec<usize>>> = a[2..].iter().map(|p| pop_of(p, us)).collect();
+            let problem = Tsp::new(vec![]);
+            catch(|| {
+                let mut state: State<Tsp> = State::new();
+                state.insert(Populations::<Tsp>::new());
+                state.insert(Random::new(0));
+                for p in pops {
+                    state.populations_mut().push(p.into_iter().map(|s| Individual::new(s, SingleObjective::try_from(1.0).unwrap())).collect());
+                }
+                let ok = mutation(&m, &problem, &mut state).is_ok();
+                let mut stack = vec![];   // top first
+                loop {
+                    let Some(top) = state.populations_mut().try_pop() else { break };
+                    stack.push(tagged("pop", top.iter().map(|i| vs(i.solution()))));
+                }
+                list([if ok { "ok".to_string() } else { "err".to_string() }, tagged("stack", stack)])
+            }).unwrap_or_else(|| "panic".into())
+        }
         "mut-normal" | "mut-uniform" => {
             let (p1, rm) = (a[0].float().unwrap(), a[1].float().unwrap());
             let pop = pop_of(&a[3], fl);
             let problem = Sphere::new(dim_of(pop.first().map_or(0, |s| s.len())), -5.0, 5.0, 0.0);
-            let c = if name == "mut-normal" { NormalMutation::new(p1, rm) } else { UniformMutation::new(p1, rm) };
-            run(&problem, Ok(c), rng_of(&a[2]), vec![pop], |s| fs(s))
+            let c: Box<dyn Component<Sphere>> = match (name, ctor) {
+                ("mut-normal", "new") => NormalMutation::new(p1, rm),
+                ("mut-normal", "new_dev") => NormalMutation::new_dev(p1),
+                ("mut-normal", "new_with_id") => NormalMutation::<mahf::identifier::Global>::new_with_id(p1, rm),
+                ("mut-normal", "from_params") => Box::new(NormalMutation::<mahf::identifier::Global>::from_params(p1, rm)),
+                ("mut-uniform", "new") => UniformMutation::new(p1, rm),
+                ("mut-uniform", "new_bound") => UniformMutation::new_bound(p1),
+                ("mut-uniform", "new_with_id") => UniformMutation::<mahf::identifier::Global>::new_with_id(p1, rm),
+                ("mut-uniform", "from_params") => Box::new(UniformMutation::<mahf::identifier::Global>::from_params(p1, rm)),
+                _ => bad_ctor(),
+            };
+            if name == "mut-normal" {
+                run_adapted(&problem, Ok(c), rng_of(&a[2]), vec![pop], |s| fs(s), |st| adapt_states::<_, NormalMutation>(st, mode, ads, adr))
+            } else {
+                run_adapted(&problem, Ok(c), rng_of(&a[2]), vec![pop], |s| fs(s), |st| adapt_states::<_, UniformMutation>(st, mode, ads, adr))
+            }
         }
         "mut-spread" => {
             let (lo, hi, rm) = (a[0].float().unwrap(), a[1].float().unwrap(), a[2].float().unwrap());
             let pop = pop_of(&a[4], fl);
             let problem = Sphere::new(pop.first().map_or(0, |s| s.len()), lo, hi, 0.0);
-            run(&problem, Ok(PartialRandomSpread::new(rm)), rng_of(&a[3]), vec![pop], |s| fs(s))
+            let c: Box<dyn Component<Sphere>> = match ctor {
+                "new" => PartialRandomSpread::new(rm),
+                "new_full" => PartialRandomSpread::new_full(),
+                "new_with_id" => PartialRandomSpread::<mahf::identifier::Global>::new_with_id(rm),
+                "from_params" => Box::new(PartialRandomSpread::<mahf::identifier::Global>::from_params(rm)),
+                _ => bad_ctor(),
+            };
+            run_adapted(&problem, Ok(c), rng_of(&a[3]), vec![pop], |s| fs(s), |st| adapt_states::<_, PartialRandomSpread>(st, mode, None, adr))
         }
         "mut-bitflip" | "mut-bits" => {
             let (p, rm) = (a[0].float().unwrap(), a[1].float().unwrap());
             let pop = pop_of(&a[3], bl);
             let problem = OneMax::new(pop.first().map_or(0, |s| s.len()));
-            let c = if name == "mut-bitflip" { BitFlipMutation::new(rm) } else { PartialRandomBitstring::new(p, rm) };
-            run(&problem, Ok(c), rng_of(&a[2]), vec![pop], |s| bs(s))
+            let c: Box<dyn Component<OneMax>> = match (name, ctor) {
+                ("mut-bitflip", "new") => BitFlipMutation::new(rm),
+                ("mut-bitflip", "new_with_id") => BitFlipMutation::<mahf::identifier::Global>::new_with_id(rm),
+                ("mut-bitflip", "from_params") => Box::new(BitFlipMutation::<mahf::identifier::Global>::from_params(rm)),
+                ("mut-bits", "new") => PartialRandomBitstring::new(p, rm),
+                ("mut-bits", "new_uniform") => PartialRandomBitstring::new_uniform(rm),
+                ("mut-bits", "new_full") => PartialRandomBitstring::new_full(p),
+                ("mut-bits", "new_uniform_full") => PartialRandomBitstring::new_uniform_full(),
+                ("mut-bits", "new_with_id") => PartialRandomBitstring::<mahf::identifier::Global>::new_with_id(p, rm),
+                ("mut-bits", "from_params") => Box::new(PartialRandomBitstring::<mahf::identifier::Global>::from_params(p, rm)),
+                _ => bad_ctor(),
+            };
+            if name == "mut-bitflip" {
+                run_adapted(&problem, Ok(c), rng_of(&a[2]), vec![pop], |s| bs(s), |st| adapt_states::<_, BitFlipMutation>(st, mode, None, adr))
+            } else {
+                run_adapted(&problem, Ok(c), rng_of(&a[2]), vec![pop], |s| bs(s), |st| adapt_states::<_, PartialRandomBitstring>(st, mode, None, adr))
+            }
         }
         "idm" => {
             // instance with identifier `A` alone, or `A` next to the `Global` instance of the same component
@@ -174,14 +286,24 @@ pub fn run_component(name: &str, a: &[Sx]) -> String {
             let pop = pop_of(&a[2], us);
             let n = pop.first().map_or(0, |s| s.len());
             let problem = Tsp::new(vec![vec![1.0; n]; n]);
-            let c: Result<Box<dyn Component<Tsp>>, ()> = match name {
-                "pmut-swap" => SwapMutation::new(a[0].nat().unwrap() as u32).map_err(|_| ()),
-                "pmut-scramble" => Ok(ScrambleMutation::new(a[0].float().unwrap())),
-                "pmut-inversion" => Ok(Box::new(InversionMutation::from_params())),
-                "pmut-insertion" => Ok(InsertionMutation::new()),
-                _ => Ok(TranslocationMutation::new()),
+            let c: Result<Box<dyn Component<Tsp>>, ()> = match (name, ctor) {
+                ("pmut-swap", "new") => SwapMutation::new(a[0].nat().unwrap() as u32).map_err(|_| ()),
+                ("pmut-swap", "from_params") => SwapMutation::from_params(a[0].nat().unwrap() as u32).map(|c| Box::new(c) as Box<dyn Component<Tsp>>).map_err(|_| ()),
+                ("pmut-scramble", "new") => Ok(ScrambleMutation::new(a[0].float().unwrap())),
+                ("pmut-scramble", "new_full") => Ok(ScrambleMutation::new_full()),
+                ("pmut-scramble", "new_with_id") => Ok(ScrambleMutation::<mahf::identifier::Global>::new_with_id(a[0].float().unwrap())),
+                ("pmut-scramble", "from_params") => Ok(Box::new(ScrambleMutation::<mahf::identifier::Global>::from_params(a[0].float().unwrap()))),
+                ("pmut-inversion", "new") => Ok(InversionMutation::new::<Tsp, usize>()),
+                ("pmut-inversion", "from_params") => Ok(Box::new(InversionMutation::from_params())),
+                ("pmut-insertion", "new") => Ok(InsertionMutation::new()),
+                ("pmut-insertion", "from_params") => Ok(Box::new(InsertionMutation::from_params())),
+                ("pmut-transloc", "new") => Ok(TranslocationMutation::new()),
+                ("pmut-transloc", "from_params") => Ok(Box::new(TranslocationMutation::from_params())),
+                _ => bad_ctor(),
             };
-            run(&problem, c, rng_of(&a[1]), vec![pop], |s| vs(s))
+            run_adapted(&problem, c, rng_of(&a[1]), vec![pop], |s| vs(s), |st| {
+                if name == "pmut-scramble" { adapt_states::<_, ScrambleMutation>(st, mode, None, adr) }
+            })
         }
         "rec-npoint" | "rec-uniform" | "rec-cycle" => {
             let n = a[0].nat().unwrap() as usize;
@@ -189,10 +311,20 @@ pub fn run_component(name: &str, a: &[Sx]) -> String {
             let pop = pop_of(&a[4], us);
             let d = pop.first().map_or(0, |s| s.len());
             let problem = Tsp::new(vec![vec![1.0; d]; d]);
-            let c: Box<dyn Component<Tsp>> = match name {
-                "rec-npoint" => NPointCrossover::new(n, pc, both),
-                "rec-uniform" => UniformCrossover::new(pc, both),
-                _ => CycleCrossover::new(pc, both),
+            let c: Box<dyn Component<Tsp>> = match (name, ctor) {
+                ("rec-npoint", "new") => NPointCrossover::new(n, pc, both),
+                ("rec-npoint", "new_insert_single") => NPointCrossover::new_insert_single(n, pc),
+                ("rec-npoint", "new_insert_both") => NPointCrossover::new_insert_both(n, pc),
+                ("rec-npoint", "from_params") => Box::new(NPointCrossover::from_params(n, pc, both)),
+                ("rec-uniform", "new") => UniformCrossover::new(pc, both),
+                ("rec-uniform", "new_insert_single") => UniformCrossover::new_insert_single(pc),
+                ("rec-uniform", "new_insert_both") => UniformCrossover::new_insert_both(pc),
+                ("rec-uniform", "from_params") => Box::new(UniformCrossover::from_params(pc, both)),
+                ("rec-cycle", "new") => CycleCrossover::new(pc, both),
+                ("rec-cycle", "new_insert_single") => CycleCrossover::new_insert_single(pc),
+                ("rec-cycle", "new_insert_both") => CycleCrossover::new_insert_both(pc),
+                ("rec-cycle", "from_params") => Box::new(CycleCrossover::from_params(pc, both)),
+                _ => bad_ctor(),
             };
             run(&problem, Ok(c), rng_of(&a[3]), vec![pop], |s| vs(s))
         }
@@ -200,13 +332,25 @@ pub fn run_component(name: &str, a: &[Sx]) -> String {
             let (pc, both) = (a[1].float().unwrap(), a[2].atom().unwrap() == "t");
             let pop = pop_of(&a[4], fl);
             let problem = Sphere::new(pop.first().map_or(0, |s| s.len()), -5.0, 5.0, 0.0);
-            run(&problem, Ok(ArithmeticCrossover::new(pc, both)), rng_of(&a[3]), vec![pop], |s| fs(s))
+            let c: Box<dyn Component<Sphere>> = match ctor {
+                "new" => ArithmeticCrossover::new(pc, both),
+                "new_insert_single" => ArithmeticCrossover::new_insert_single(pc),
+                "new_insert_both" => ArithmeticCrossover::new_insert_both(pc),
+                "from_params" => Box::new(ArithmeticCrossover::from_params(pc, both)),
+                _ => bad_ctor(),
+            };
+            run(&problem, Ok(c), rng_of(&a[3]), vec![pop], |s| fs(s))
         }
         "demut" => {
             let (y, f) = (a[0].nat().unwrap() as u32, a[1].float().unwrap());
             let pop = pop_of(&a[2], fl);
             let problem = Sphere::new(pop.first().map_or(0, |s| s.len()), -5.0, 5.0, 0.0);
-            run(&problem, DEMutation::new(y, f).map_err(|_| ()), Random::new(0), vec![pop], |s| fs(s))
+            let c: Result<Box<dyn Component<Sphere>>, ()> = match ctor {
+                "new" => DEMutation::new(y, f).map_err(|_| ()),
+                "from_params" => DEMutation::from_params(y, f).map(|c| Box::new(c) as Box<dyn Component<Sphere>>).map_err(|_| ()),
+                _ => bad_ctor(),
+            };
+            run(&problem, c, Random::new(0), vec![pop], |s| fs(s))
         }
         "decx" => {
             let kind = a[0].atom().unwrap();
@@ -214,7 +358,13 @@ pub fn run_component(name: &str, a: &[Sx]) -> String {
             let dim = a[3].nat().unwrap() as usize;
             let pops: Vec<Vec<Vec<f64>>> = a[4..].iter().map(|p| pop_of(p, fl)).collect();   // bottom first: base, then mut
             let problem = Sphere::new(dim, -5.0, 5.0, 0.0);
-            let c: Box<dyn Component<Sphere>> = if kind == "bin" { DEBinomialCrossover::new(pc) } else { DEExponentialCrossover::new(pc) };
+            let c: Box<dyn Component<Sphere>> = match (kind, ctor) {
+                ("bin", "new") => DEBinomialCrossover::new(pc),
+                ("bin", "from_params") => Box::new(DEBinomialCrossover::from_params(pc)),
+                ("exp", "new") => DEExponentialCrossover::new(pc),
+                ("exp", "from_params") => Box::new(DEExponentialCrossover::from_params(pc)),
+                _ => bad_ctor(),
+            };
             run(&problem, Ok(c), rng_of(&a[2]), pops, |s| fs(s))
         }
         _ => panic!("unknown case kind {name}"),
@@ -224,7 +374,64 @@ pub fn run_component(name: &str, a: &[Sx]) -> String {
 fn unit(x: f64) -> bool { (0.0..=1.0).contains(&x) }
 fn strength(x: f64) -> bool { x >= 0.0 && x.is_finite() }
 
+/// `Base@x!malformed` + `::ctor` / `@adapted` → `Base::ctor@x!malformed`.
+fn decorate(site: &str, deco: &str) -> String {
+    let cut = site.find(|c| c == '@' || c == '!').unwrap_or(site.len());
+    format!("{}{}{}", &site[..cut], deco, &site[cut..])
+}
+
+/// The arguments a constructor does not take are ignored: validity is judged on the stored values.
+fn via_subst(inner: &str, ctor: &str, ia: &mut [Sx]) {
+    let one = Sx::A(fx(1.0));
+    let half = Sx::A(fx(0.5));
+    match (inner, ctor) {
+        ("mut-normal", "new_dev") | ("mut-uniform", "new_bound") => ia[1] = one,
+        ("mut-spread", "new_full") => ia[2] = one,
+        ("pmut-scramble", "new_full") => ia[0] = one,
+        ("mut-bits", "new_full") => ia[1] = one,
+        ("mut-bits", "new_uniform") => ia[0] = half,
+        ("mut-bits", "new_uniform_full") => { ia[0] = half; ia[1] = one }
+        _ => {}
+    }
+}
+
 pub fn site_of(name: &str, a: &[Sx]) -> String {
+    match name {
+        "via" => {
+            let ctor = a[0].atom().unwrap();
+            let (inner, ia) = a[1].head().unwrap();
+            let mut ia: Vec<Sx> = ia.to_vec();
+            via_subst(inner, ctor, &mut ia);
+            return decorate(&site_of(inner, &ia), &format!("::{ctor}"));
+        }
+        "adapt" => {
+            let set = a[1].items().unwrap();
+            let (mut inner, ia) = a[2].head().unwrap();
+            let mut ia: Vec<Sx> = ia.to_vec();
+            let mut deco = "@adapted".to_string();
+            if inner == "via" {
+                let ctor = ia[0].atom().unwrap().to_string();
+                let (i2, a2) = ia[1].head().unwrap();
+                let mut a2: Vec<Sx> = a2.to_vec();
+                via_subst(i2, &ctor, &mut a2);
+                deco = format!("::{ctor}@adapted");
+                inner = match i2 { "mut-normal" => "mut-normal", "mut-uniform" => "mut-uniform", "mut-spread" => "mut-spread",
+                                   "mut-bitflip" => "mut-bitflip", "mut-bits" => "mut-bits", _ => "pmut-scramble" };
+                ia = a2;
+            }
+            let (spos, rpos) = match inner {
+                "mut-normal" | "mut-uniform" => (Some(0), 1),
+                "mut-spread" => (None, 2),
+                "mut-bitflip" | "mut-bits" => (None, 1),
+                _ => (None, 0),
+            };
+            if let (Some(i), Some(v)) = (spos, optf(&set[1])) { ia[i] = Sx::A(fx(v)); }
+            if let Some(v) = optf(&set[2]) { ia[rpos] = Sx::A(fx(v)); }
+            return decorate(&site_of(inner, &ia), &deco);
+        }
+        "mutdefault" => return "mutation-default".into(),
+        _ => {}
+    }
     let zero = |i: usize| a[i].atom() == Some("zero");
     let dim = |i: usize| a[i].head().map_or(0, |(_, s)| s.first().map_or(0, |x| x.items().map_or(0, |v| v.len())));
     let (site, ok): (&str, bool) = match name {
@@ -245,7 +452,7 @@ pub fn site_of(name: &str, a: &[Sx]) -> String {
         "pmut-swap" => { let k = a[0].nat().unwrap() as usize; ("SwapMutation", k >= 2 && (k <= dim(2) || a[2].items().map_or(true, |v| v.len() <= 1))) }
         "pmut-scramble" => ("ScrambleMutation", unit(a[0].float().unwrap())),
         "pmut-inversion" => ("InversionMutation", true),
-        "pmut-insertion" => ("InsertionMutation", true),
+        "pmut-insertion" => ("InsertionMutation", !(dim(2) == 0 && a[2].head().map_or(false, |(_, v)| !v.is_empty()))),
         "pmut-transloc" => ("TranslocationMutation", true),
         "rec-npoint" => { let n = a[0].nat().unwrap() as usize;
             (if n >= 1 && n < dim(4) { "NPointCrossover" } else { "NPointCrossover@n-out-of-range" }, true) }
@@ -253,7 +460,7 @@ pub fn site_of(name: &str, a: &[Sx]) -> String {
         "rec-cycle" => ("CycleCrossover", true),
         "rec-arith" => ("ArithmeticCrossover", true),
         "demut" => { let y = a[0].nat().unwrap(); let f = a[1].float().unwrap(); ("DEMutation", (y == 1 || y == 2) && f > 0.0 && f <= 2.0) }
-        "decx" => (if a[0].atom() == Some("bin") { "DEBinomialCrossover" } else { "DEExponentialCrossover" }, a.len() >= 6),
+        "decx" => (if a[0].atom() == Some("bin") { "DEBinomialCrossover" } else { "DEExponentialCrossover" }, a.len() >= 6 && a[3].nat() != Some(0)),
         _ => (name, true),
     };
     let z = match name {
@@ -386,6 +593,7 @@ pub fn generate(a: &Args, rng: &mut Sm, emit: &mut dyn FnMut(String)) {
             } } }
         }
     }
+    generate_ext(a, &mut g, emit);
     // parameter values outside the documented domain (never a violation; the model must still agree)
     let p = g.reals(2, 3);
     let q = g.bits(2, 3);
@@ -420,4 +628,151 @@ pub fn generate(a: &Args, rng: &mut Sm, emit: &mut dyn FnMut(String)) {
     for kind in ["bin", "exp"] {
         emit(format!("(decx {} {} 1 3 {})", kind, fx(0.5), pf(&g.reals(2, 3))));
     }
+}
+
+/// Extensions: run-time adapted parameters, every public constructor, `mutation()`, dimension 0, large sizes.
+fn generate_ext(a: &Args, g: &mut G, emit: &mut dyn FnMut(String)) {
+    let reps = if a.thorough { 6 } else { 1 };
+    let of = |x: Option<f64>| x.map_or("-".to_string(), fx);
+    // ---- (1) parameters overwritten in the state between init and execute: the STATE governs
+    // (constructor rate, adapted rate): 1→0 must be the identity, 0→1 must fire everywhere, invalid→valid must
+    // run, valid→invalid must err; likewise strength / bound
+    let rate_pairs: [(f64, Option<f64>); 8] = [(1.0, Some(0.0)), (0.0, Some(1.0)), (0.5, Some(0.0)), (0.0, Some(0.5)),
+        (1.5, Some(0.5)), (0.5, Some(1.5)), (f64::NAN, Some(1.0)), (0.5, None)];
+    for _ in 0..reps { for dim in [1usize, 2, 5, 8] { for mode in ["set", "insert"] {
+        for &(crm, arm) in &rate_pairs {
+            let n = g.rng.range(1, 4) as usize;
+            let (p, q, t) = (g.reals(n, dim), g.bits(n, dim), g.tagged_vecs(n, dim));
+            let set = format!("(set - {})", of(arm));
+            emit(format!("(adapt {mode} {set} (mut-normal {} {} {} {}))", fx(0.1), fx(crm), g.seed(), pf(&p)));
+            emit(format!("(adapt {mode} {set} (mut-uniform {} {} {} {}))", fx(0.1), fx(crm), g.seed(), pf(&p)));
+            emit(format!("(adapt {mode} {set} (mut-spread {} {} {} {} {}))", fx(-5.0), fx(5.0), fx(crm), g.seed(), pf(&p)));
+            emit(format!("(adapt {mode} {set} (mut-bitflip {} {} {} {}))", fx(0.5), fx(crm), g.seed(), pb(&q)));
+            emit(format!("(adapt {mode} {set} (mut-bits {} {} {} {}))", fx(*g.rng.pick(&[0.0, 1.0, 0.5])), fx(crm), g.seed(), pb(&q)));
+            emit(format!("(adapt {mode} {set} (pmut-scramble {} {} {}))", fx(crm), g.seed(), pu(&t)));
+        }
+        // strength / bound: (constructor, adapted)
+        for &(cs, as_) in &[(25.0, Some(0.0)), (0.0, Some(25.0)), (25.0, Some(0.1)), (-1.0, Some(0.5)), (0.5, Some(-1.0)),
+                            (f64::INFINITY, Some(1.0)), (1.0, Some(f64::NAN)), (1.0, None)] {
+            let n = g.rng.range(1, 3) as usize;
+            let p = g.reals(n, dim);
+            for arm in [None, Some(1.0)] {
+                let set = format!("(set {} {})", of(as_), of(arm));
+                emit(format!("(adapt {mode} {set} (mut-normal {} {} {} {}))", fx(cs), fx(1.0), g.seed(), pf(&p)));
+                emit(format!("(adapt {mode} {set} (mut-uniform {} {} {} {}))", fx(cs), fx(1.0), g.seed(), pf(&p)));
+            }
+        }
+    } } }
+    // ---- (2) every public constructor; arguments a constructor does not take carry a DIFFERENT value
+    for _ in 0..reps { for dim in [1usize, 3, 7] {
+        let n = g.rng.range(1, 4) as usize;
+        let (p, q, t) = (g.reals(n, dim), g.bits(n, dim), g.tagged_vecs(n, dim));
+        for rm in [0.0, 0.5, 1.0] {
+            for c in ["new_dev", "from_params", "new_with_id"] { emit(format!("(via {c} (mut-normal {} {} {} {}))", fx(0.1), fx(rm), g.seed(), pf(&p))); }
+            for c in ["new_bound", "from_params", "new_with_id"] { emit(format!("(via {c} (mut-uniform {} {} {} {}))", fx(0.1), fx(rm), g.seed(), pf(&p))); }
+            for c in ["new_full", "from_params", "new_with_id"] { emit(format!("(via {c} (mut-spread {} {} {} {} {}))", fx(-5.0), fx(5.0), fx(rm), g.seed(), pf(&p))); }
+            for c in ["from_params", "new_with_id"] { emit(format!("(via {c} (mut-bitflip {} {} {} {}))", fx(0.5), fx(rm), g.seed(), pb(&q))); }
+            for c in ["new_uniform", "new_full", "new_uniform_full", "from_params", "new_with_id"] { for pr in [0.0, 1.0] {
+                emit(format!("(via {c} (mut-bits {} {} {} {}))", fx(pr), fx(rm), g.seed(), pb(&q)));
+            } }
+            for c in ["new_full", "from_params", "new_with_id"] { emit(format!("(via {c} (pmut-scramble {} {} {}))", fx(rm), g.seed(), pu(&t))); }
+        }
+        // a "full" constructor, then the rate adapted down to zero: identity
+        emit(format!("(adapt set (set - {}) (via new_full (mut-spread {} {} {} {} {})))", fx(0.0), fx(-5.0), fx(5.0), fx(0.5), g.seed(), pf(&p)));
+        emit(format!("(adapt set (set - {}) (via new_dev (mut-normal {} {} {} {})))", fx(0.0), fx(1.0), fx(0.5), g.seed(), pf(&p)));
+        emit(format!("(adapt insert (set - {}) (via new_uniform_full (mut-bits {} {} {} {})))", fx(0.0), fx(1.0), fx(0.5), g.seed(), pb(&q)));
+        for c in ["from_params"] {
+            emit(format!("(via {c} (pmut-swap {} {} {}))", 2.min(dim).max(2), g.seed(), pu(&t)));
+            emit(format!("(via {c} (pmut-swap 1 {} {}))", g.seed(), pu(&t)));
+            emit(format!("(via {c} (pmut-inversion 0 {} {}))", g.seed(), pu(&t)));
+            emit(format!("(via {c} (pmut-insertion 0 {} {}))", g.seed(), pu(&t)));
+            emit(format!("(via {c} (pmut-transloc 0 {} {}))", g.seed(), pu(&t)));
+            emit(format!("(via {c} (demut 1 {} {}))", fx(0.5), pf(&g.reals(3, dim))));
+            emit(format!("(via {c} (demut 3 {} {}))", fx(0.5), pf(&g.reals(3, dim))));
+            for kind in ["bin", "exp"] {
+                emit(format!("(via {c} (decx {} {} {} {} {} {}))", kind, fx(0.3), g.seed(), dim, pf(&g.reals(2, dim)), pf(&g.reals(2, dim).into_iter().map(|s| s.into_iter().map(|x| x + 0.5).collect()).collect::<Vec<Vec<f64>>>())));
+            }
+        }
+        // crossover constructors: the flag in the inner case is the OPPOSITE of what the constructor stores
+        for pc in [0.0, 0.3, 1.0] { for n in [2usize, 3, 5, 6] {
+            for (c, flag) in [("new_insert_single", true), ("new_insert_both", false), ("from_params", true), ("from_params", false)] {
+                let t = g.tagged_vecs(n, dim);
+                if dim >= 2 { emit(format!("(via {c} (rec-npoint {} {} {} {} {}))", g.rng.range(1, dim as u64 - 1), fx(pc), b(flag), g.seed(), pu(&t))); }
+                emit(format!("(via {c} (rec-uniform 0 {} {} {} {}))", fx(pc), b(flag), g.seed(), pu(&t)));
+                let pp = g.perms(n, dim);
+                emit(format!("(via {c} (rec-cycle 0 {} {} {} {}))", fx(pc), b(flag), g.seed(), pu(&pp)));
+                let r = g.reals(n, dim);
+                emit(format!("(via {c} (rec-arith 0 {} {} {} {}))", fx(pc), b(flag), g.seed(), pf(&r)));
+            }
+        } }
+    } }
+    // ---- (3) `mutation()` with a user-side `Mutation`: all succeed / one fails (first, middle, last), stack heights 1..3
+    for kind in 0..3u64 { for height in 1..=3usize { for n in 0..=4usize { for dim in [0usize, 1, 4] {
+        let pops: Vec<Vec<Vec<usize>>> = (0..height).map(|h| (0..n).map(|j| (0..dim).map(|i| 1000 * (h + 1) + 10 * j + i).collect()).collect()).collect();
+        let top_tag = |j: usize| 1000 * height + 10 * j;
+        let mut fails = vec![999_999usize];
+        if n > 0 && dim > 0 { fails.extend([top_tag(0), top_tag(n / 2), top_tag(n - 1)]); }
+        if height > 1 && n > 0 && dim > 0 { fails.push(1000); }      // a gene of a LOWER population: never visited
+        for f in fails {
+            emit(format!("(mutdefault {} {} {})", kind, f, pops.iter().map(|p| pu(p)).collect::<Vec<_>>().join(" ")));
+        }
+    } } } }
+    emit("(mutdefault 0 5)".into());    // empty stack: `pop` panics
+    // ---- (4) dimension 0 (empty solutions) for every component
+    for n in [1usize, 2, 3] {
+        let (e_f, e_b, e_u) = (pf(&vec![vec![]; n]), pb(&vec![vec![]; n]), pu(&vec![vec![]; n]));
+        for rm in [0.0, 1.0] {
+            emit(format!("(mut-normal {} {} 1 {})", fx(1.0), fx(rm), e_f));
+            emit(format!("(mut-uniform {} {} 1 {})", fx(1.0), fx(rm), e_f));
+            emit(format!("(mut-spread {} {} {} 1 {})", fx(-5.0), fx(5.0), fx(rm), e_f));
+            emit(format!("(mut-bitflip {} {} 1 {})", fx(0.5), fx(rm), e_b));
+            emit(format!("(mut-bits {} {} 1 {})", fx(0.5), fx(rm), e_b));
+            emit(format!("(pmut-scramble {} 1 {})", fx(rm), e_u));
+        }
+        emit(format!("(pmut-inversion 0 1 {})", e_u));
+        emit(format!("(pmut-insertion 0 1 {})", e_u));
+        emit(format!("(pmut-transloc 0 1 {})", e_u));
+        emit(format!("(pmut-swap 2 1 {})", e_u));
+        for both in [true, false] {
+            emit(format!("(rec-uniform 0 {} {} 1 {})", fx(1.0), b(both), e_u));
+            emit(format!("(rec-cycle 0 {} {} 1 {})", fx(1.0), b(both), e_u));
+            emit(format!("(rec-arith 0 {} {} 1 {})", fx(1.0), b(both), e_f));
+            emit(format!("(rec-npoint 1 {} {} 1 {})", fx(1.0), b(both), e_u));
+        }
+        emit(format!("(demut 1 {} {})", fx(0.5), pf(&vec![vec![]; 3 * n])));
+        for kind in ["bin", "exp"] { emit(format!("(decx {} {} 1 0 {} {})", kind, fx(0.5), e_f, e_f)); }
+    }
+    emit(format!("(pmut-insertion 0 1 {})", pu(&[])));
+    for kind in ["bin", "exp"] { emit(format!("(decx {} {} 1 0 {} {})", kind, fx(0.5), pf(&[]), pf(&[]))); }
+    // ---- (5) large dimensions and populations (a size-dependent path must not go unnoticed)
+    for _ in 0..reps { for dim in [12usize, 17, 33, 40] {
+        let n = g.rng.range(2, 5) as usize;
+        let (p, q, t) = (g.reals(n, dim), g.bits(n, dim), g.tagged_vecs(n, dim));
+        for rm in [0.0, 0.5, 1.0] {
+            emit(format!("(mut-normal {} {} {} {})", fx(0.1), fx(rm), g.seed(), pf(&p)));
+            emit(format!("(mut-uniform {} {} {} {})", fx(0.1), fx(rm), g.seed(), pf(&p)));
+            emit(format!("(mut-spread {} {} {} {} {})", fx(-5.0), fx(5.0), fx(rm), g.seed(), pf(&p)));
+            emit(format!("(mut-bitflip {} {} {} {})", fx(0.5), fx(rm), g.seed(), pb(&q)));
+            emit(format!("(mut-bits {} {} {} {})", fx(1.0), fx(rm), g.seed(), pb(&q)));
+            emit(format!("(pmut-scramble {} {} {})", fx(rm), g.seed(), pu(&t)));
+        }
+        emit(format!("(pmut-inversion 0 {} {})", g.seed(), pu(&t)));
+        emit(format!("(pmut-insertion 0 {} {})", g.seed(), pu(&t)));
+        emit(format!("(pmut-transloc 0 {} {})", g.seed(), pu(&t[..2.min(n)])));
+        for k in [2, 3, dim / 2, dim - 1, dim, dim + 1] { emit(format!("(pmut-swap {} {} {})", k, g.seed(), pu(&t))); }
+        for both in [true, false] { for pc in [0.3, 1.0] {
+            let m = g.rng.range(2, 12) as usize;
+            let t = g.tagged_vecs(m, dim);
+            for cuts in [1, 2, dim / 2, dim - 1] { emit(format!("(rec-npoint {} {} {} {} {})", cuts, fx(pc), b(both), g.seed(), pu(&t))); }
+            emit(format!("(rec-uniform 0 {} {} {} {})", fx(pc), b(both), g.seed(), pu(&t)));
+            emit(format!("(rec-cycle 0 {} {} {} {})", fx(pc), b(both), g.seed(), pu(&g.perms(m, dim))));
+            emit(format!("(rec-arith 0 {} {} {} {})", fx(pc), b(both), g.seed(), pf(&g.reals(m, dim))));
+        } }
+        for y in [1usize, 2] { let r = g.reals(3 * (2 * y + 1), dim); emit(format!("(demut {} {} {})", y, fx(0.5), pf(&r))); }
+        for kind in ["bin", "exp"] { for pc in [0.0, 0.3, 1.0] {
+            let base = g.reals(3, dim);
+            let mutant: Vec<Vec<f64>> = g.reals(3, dim).into_iter().map(|s| s.into_iter().map(|x| x + 0.5).collect()).collect();
+            emit(format!("(decx {} {} {} {} {} {})", kind, fx(pc), g.seed(), dim, pf(&base), pf(&mutant)));
+        } }
+    } }
 }
